@@ -30,6 +30,20 @@ def tree_hash(root, exts):
                 h.update(p.encode()); h.update(open(p, 'rb').read())
     return h.hexdigest()[:16]
 
+def sha(txt):
+    return hashlib.sha256(txt.encode()).hexdigest()[:24]
+
+def repo_hash():
+    return tree_hash(REPO, ('.go', '.mod', '.sum'))
+
+def verif_hash():
+    h = hashlib.sha256()
+    for d, exts in (('harness', ('.go', '.mod')), ('spec', ('.tla', '.cfg'))):
+        h.update(tree_hash(os.path.join(VERIF, d), exts).encode())
+    for f in sorted(glob.glob(os.path.join(VERIF, '*.py'))) + [os.path.join(VERIF, 'check'), os.path.join(VERIF, 'known_findings.json')]:
+        h.update(open(f, 'rb').read())
+    return h.hexdigest()[:16]
+
 def workdir(tag):
     d = os.path.join(WORK, '%s-%d-%d' % (tag, os.getpid(), int(time.time() * 1000) % 100000))
     os.makedirs(d, exist_ok=True)
@@ -204,3 +218,53 @@ def record_mbt(vh, seed, chunks, traces_per_chunk, depth, out_dir, wd, keep_ever
     if not res:
         raise Infra('TLC simulation produced no behaviour at all')
     return res
+
+
+def record_cover(vh, names, out_dir, wd):
+    """spec -> code, exhaustive: the state cover of small MC_Node configurations (every state TLC reaches breadth-first, each
+    with the schedule that reached it) is executed on a real node by the script driver, in chunks."""
+    import mc, gzip
+    items = {i['name']: i for k in mc.NODE_FAMILIES for i in mc.NODE_FAMILIES[k]}
+    items.update({i['name']: i for i in mc.SYNC_FAMILIES})
+    out = []
+    for nm in names:
+        nm, _, cap = nm.partition(':')      # "name:K" = the schedule of one state in K
+        gz, meta = mc.cover_file(items[nm], wd, mod=int(cap) if cap else 1)
+        bf = os.path.join(out_dir, 'cover-%s.ndjson' % nm)
+        with gzip.open(gz, 'rb') as i, open(bf, 'wb') as o:
+            shutil.copyfileobj(i, o)
+        n = sum(1 for _ in open(bf))
+        meta = dict(meta, name=nm, behaviours=n)
+        per = max(50, (n + NCPU - 1) // NCPU)
+        jobs = []
+        for a in range(0, n, per):
+            tf = os.path.join(out_dir, 'script-cover-%s-%d.ndjson' % (nm, a))
+            jobs.append((tf, [vh, 'script', '-in', bf, '-from', str(a), '-runs', str(min(per, n - a)), '-out', tf], min(per, n - a)))
+        def run(j):
+            r = sh(j[1], timeout=1800)
+            if r.returncode != 0:
+                raise Infra('script driver failed: %s' % r.stdout[-1500:])
+            return j[0], bf, j[2], meta
+        with ThreadPoolExecutor(max_workers=NCPU) as ex:
+            out += list(ex.map(run, jobs))
+    return out
+
+
+def record_attacks(vh, out_dir):
+    """spec -> code, adversarial: the attack schedules TLC found on weakened variants of the specification
+    (generated/attacks.json, see tools_attacks.py) are executed on the real code."""
+    p = os.path.join(VERIF, 'generated', 'attacks.json')
+    if not os.path.exists(p):
+        return [], {'attacks': 0, 'note': 'generated/attacks.json missing'}
+    atk = json.load(open(p))
+    bf = os.path.join(out_dir, 'attacks.ndjson')
+    with open(bf, 'w') as o:
+        for a in atk:
+            o.write(json.dumps(a['schedule']) + '\n')
+    tf = os.path.join(out_dir, 'script-attacks.ndjson')
+    r = sh([vh, 'script', '-in', bf, '-runs', '0', '-out', tf], timeout=1800)
+    if r.returncode != 0:
+        raise Infra('script driver failed on the attack schedules: %s' % r.stdout[-1500:])
+    meta = {'attacks': len(atk), 'weakenings': sorted({a['weaken'] for a in atk}),
+            'targets': sorted({'%s/%s' % (a['property'], a['invariant']) for a in atk})}
+    return [(tf, bf, len(atk))], meta
